@@ -77,6 +77,43 @@ func loadTexts() []string {
 	return out
 }
 
+func loadOffset(g, i, n int) int { return (g*7 + i) % n }
+
+func loadMods() map[string]string {
+	mods := map[string]string{}
+	for k, v := range fx.Extra {
+		mods[k] = v
+	}
+	for k, v := range fx.Sources {
+		mods[k] = v
+	}
+	return mods
+}
+
+func loadOne(mods map[string]string, text string) string {
+	m, err := parser.LoadModuleFromString(dschema.MemOpener(mods), text)
+	if err != nil {
+		return "error: " + err.Error() + "\n"
+	}
+	return dschema.Dump(m)
+}
+
+// the surroundings of the first position where a differs from b
+func firstDiff(a, b string) string {
+	i := 0
+	for i < len(a) && i < len(b) && a[i] == b[i] {
+		i++
+	}
+	lo, hi := i-60, i+140
+	if lo < 0 {
+		lo = 0
+	}
+	if hi > len(a) {
+		hi = len(a)
+	}
+	return fmt.Sprintf("@%d %q", i, a[lo:hi])
+}
+
 // the module that describes modules as data, compiled once and shared as well
 var fcYang *meta.Module
 
@@ -124,7 +161,7 @@ func mkOp(f *fx.Fixture, kind string, g, i int, seed int64) op {
 	store := fx.Stores[stores[r.Intn(len(stores))]]
 	doc := fx.JSONDoc(f, src, abs.Path{})
 	texts := loadTexts()
-	off := (g*7 + i) % len(texts)
+	off := loadOffset(g, i, len(texts))
 	var paths []string
 	for _, c := range t.Cont {
 		paths = append(paths, fx.URLPath(c))
@@ -134,13 +171,7 @@ func mkOp(f *fx.Fixture, kind string, g, i int, seed int64) op {
 		path = paths[r.Intn(len(paths))]
 	}
 	query := []string{"depth=2", "content=config", "with-defaults=trim", "depth=3&content=nonconfig", "fc.max-node-count=1000"}[r.Intn(5)]
-	mods := map[string]string{}
-	for k, v := range fx.Extra {
-		mods[k] = v
-	}
-	for k, v := range fx.Sources {
-		mods[k] = v
-	}
+	mods := loadMods()
 	fail := func(err error) string { return "error: " + err.Error() }
 	switch kind {
 	case "load":
@@ -149,12 +180,7 @@ func mkOp(f *fx.Fixture, kind string, g, i int, seed int64) op {
 			// goroutine starting somewhere else
 			var sb strings.Builder
 			for k := range texts {
-				m, err := parser.LoadModuleFromString(dschema.MemOpener(mods), texts[(off+k)%len(texts)])
-				if err != nil {
-					sb.WriteString(fail(err))
-					continue
-				}
-				sb.WriteString(dschema.Dump(m))
+				sb.WriteString(loadOne(mods, texts[(off+k)%len(texts)]))
 			}
 			return sb.String()
 		}}
@@ -324,8 +350,22 @@ func RaceWorker() {
 	ops := make([][]op, ng)
 	alone := make([][]string, ng)
 	fcYang = aloneYang
+	// a load alone: every text that loads is loaded before the goroutines start, every text that
+	// must fail only after they are done - the first failing load of the process happens among
+	// the concurrent ones, and no failure precedes a load whose result is taken as the reference
+	texts, mods := loadTexts(), loadMods()
+	aloneText := map[string]string{}
+	for _, t := range texts {
+		if !strings.HasPrefix(t, "module bad") {
+			aloneText[t] = loadOne(mods, t)
+		}
+	}
 	for g := 0; g < ng; g++ {
 		for i, k := range run.Progs[g] {
+			if k == "load" {
+				alone[g] = append(alone[g], "")
+				continue
+			}
 			alone[g] = append(alone[g], mkOp(f, k, g, i, run.Seed).run()) // run alone, on the other instance
 		}
 	}
@@ -352,23 +392,44 @@ func RaceWorker() {
 		}(g)
 	}
 	pc := make([]int, ng)
+	type gotAt struct {
+		g, i int
+		got  string
+	}
+	var gots []gotAt
 	for _, ev := range run.Sched {
 		g := ev.G - 1
 		if ev.E == "start" {
 			start[g] <- pc[g]
 		} else {
-			got := <-done[g]
-			same := got == alone[g][pc[g]]
-			if !same && res.Diff == "" {
-				res.Diff = fmt.Sprintf("goroutine %d op %d (%s): alone %.200s / concurrent %.200s", ev.G, pc[g]+1, ops[g][pc[g]].kind, alone[g][pc[g]], got)
-			}
-			res.Same = append(res.Same, same)
+			gots = append(gots, gotAt{g, pc[g], <-done[g]})
 			pc[g]++
 		}
 		res.Sched = append(res.Sched, ev)
 	}
 	for g := 0; g < ng; g++ {
 		close(start[g])
+	}
+	for _, t := range texts {
+		if _, done := aloneText[t]; !done {
+			aloneText[t] = loadOne(mods, t)
+		}
+	}
+	for _, x := range gots {
+		want := alone[x.g][x.i]
+		if run.Progs[x.g][x.i] == "load" {
+			off := loadOffset(x.g, x.i, len(texts))
+			var sb strings.Builder
+			for k := range texts {
+				sb.WriteString(aloneText[texts[(off+k)%len(texts)]])
+			}
+			want = sb.String()
+		}
+		same := x.got == want
+		if !same && res.Diff == "" {
+			res.Diff = fmt.Sprintf("goroutine %d op %d (%s): alone %s / concurrent %s", x.g+1, x.i+1, run.Progs[x.g][x.i], firstDiff(want, x.got), firstDiff(x.got, want))
+		}
+		res.Same = append(res.Same, same)
 	}
 	// using a compiled module never changes what its accessors say
 	if after := dschema.Dump(shared.Module); after != before {
